@@ -70,6 +70,14 @@ class Gen:
         if self.focus == "C13" and len(refs) >= 2 and r.random() < 0.6:
             k = r.randrange(1, len(refs))
             comps = [refs[:k], refs[k:]]
+        if self.focus == "C18" and nenv >= 2 and r.random() < 0.5:
+            # two composites whose Fock spaces hold equal values, merged later
+            k = r.randrange(1, nenv)
+            comps = [refs[:k], refs[k:]]
+            lab = r.choice([0, 1, 1, 2])
+            for e in envs:
+                e["fock"] = lab
+                e.pop("fdim", None)
         return {"envs": envs, "customs": customs, "composites": comps}
 
     # ---- helpers ----------------------------------------------------------------------------
@@ -381,7 +389,7 @@ class Gen:
     def struct(self, w):
         r = self.rng
         opts = ["env_combine", "env_reorder", "ce_combine", "ce_combine", "ce_reorder", "ce_reorder", "expand", "expand", "contract", "set_contraction"]
-        if self.focus in ("C13", "C02") and len(w.handles) >= 1:
+        if self.focus in ("C13", "C02", "C18") and len(w.handles) >= 1:
             opts += ["new_composite"] * 2
         what = r.choice(opts)
         st = {"kind": "struct", "what": what}
@@ -808,6 +816,15 @@ class Gen:
                     out.insert(0, {"kind": "struct", "what": "set_contraction", "on": False})
                 out.append({"kind": "op", "gate": "Annihilation", "targets": [t], "entry": r.choice(["state", "env"])})
                 out.append({"kind": "op", "gate": "Creation", "targets": [t], "entry": "state"})
+        elif f == "C18" and len(w.handles) >= 2 and len(E) >= 2:
+            # merge the composites (their Fock spaces hold equal values), then act on members of both
+            out.append({"kind": "struct", "what": "new_composite", "args": [f"h{k}" for k in range(len(w.handles))] if r.random() < 0.7 else ["h1", "h0"]})
+            fa, fb = sid(E[0].fock), sid(E[-1].fock)
+            tot = self.support(E[0].fock) + self.support(E[-1].fock) + 1
+            rest = self.joint_dim(w) // max(1, dims_of(E[0].fock) * dims_of(E[-1].fock))
+            if r.random() < 0.5 and rest * max(tot, dims_of(E[0].fock)) * max(tot, dims_of(E[-1].fock)) <= self.CAP:
+                out.append({"kind": "op", "gate": "BS", "targets": [fa, fb], "entry": "ce", "h": len(w.handles), "params": {"eta": r.uniform(0.3, 1.2)}})
+            out.append({"kind": "measure", "targets": [fa, fb], "entry": "ce", "h": len(w.handles), "sep": True, "destructive": r.random() < 0.5})
         elif f == "C18" and H is not None and len(E) >= 2:
             # two Focks holding the same value, one of them inside a combined envelope / product space
             i0, i1 = r.sample(range(len(E)), 2)
